@@ -39,7 +39,12 @@ ASSUMPTIONS = ["K-resolved results follow the documented semantics: '+' stacks k
                "symmetry operations: all elements of C4v1' (16) and D3d (12) [quick] + m-3m' black-white (48) and a "
                "black-white D6h (24) [thorough], built as PointSymmetry(R, TR) from matrices closed in the harness; sequences "
                "use one element of each (proper/improper x TR/no TR) class",
-               "sequence depth 3; energy-axis lengths {1,3}; nk {1,2}, nband {1,3}; tensor rank <= 3 (K results <= 2)"]
+               "sequence depth 3; energy-axis lengths {1,3}; nk {1,2}, nband {1,3}; tensor rank <= 3 (K results <= 2); the quick "
+               "tier uses a reduced operation alphabet in sequences (16 ops for EnergyResult, 14 for KBandResult; thorough 23/19)",
+               "inputs at the border of the operand domain (result*np.int64, VoidResult as right operand of K/dictionary results, "
+               "K__Result.add with differently chunked operands, save with transform=None) are kept out of the sequences and "
+               "judged in dedicated 'edge' cases with one key each, so that one of them failing does not hide the others",
+               "in K sequences the operand of the in-place add is split into the same chunks as the receiver"]
 
 # ------------------------------------------------------------------------------------------------ alphabets
 TRANSFORMS = {   # name -> (Transform kwargs or None, minimal tensor rank)
